@@ -10,7 +10,7 @@ EXPLANATION = ('Static rules on the conversion sinks and the completion status: 
                'sends at least one message on every path; R2 the stream ends after a terminal (end marker sent, or poll_next maps the closed '
                'channel to Ready(None) and constructs Pending only by propagating the inner poll); R3 StatusFuture::poll registers its waker '
                'before the flag read that decides Pending (no lost wake-up); R4 the producer stores the flag before wake(), after the '
-               'downstream terminal; R5 future observer complete = send then close; R10 the values complete()/error() store into the status flag (and its initial value) are read by is_closed/is_completed/error_occur as documented (truth table over the three flag values; wait_for_end decides through is_closed); R7 the sinks report finished only when the waiting side dropped the channel (otherwise a hot source skips them at its terminal and the future never resolves); R6 the message sent by error() carries the err argument on every path (the outcome reported is the error of the source). Decides the hand-off protocol; does not decide which '
+               'downstream terminal; R5 future observer complete = send then close; R11 collect adds every item to its collection and emits it on every completing path, also for an empty source (same rule as C03.S10); R10 the values complete()/error() store into the status flag (and its initial value) are read by is_closed/is_completed/error_occur as documented (truth table over the three flag values; wait_for_end decides through is_closed); R7 the sinks report finished only when the waiting side dropped the channel (otherwise a hot source skips them at its terminal and the future never resolves); R6 the message sent by error() carries the err argument on every path (the outcome reported is the error of the source). Decides the hand-off protocol; does not decide which '
                'value is produced (Empty/MultipleValues logic).')
 ASSUMPTIONS = ['futures unbounded channel and AtomicWaker behave as documented (a message sent before the sender is dropped is received; wake() after register() wakes)']
 
@@ -48,7 +48,7 @@ def check(cx):
 
 
 def _check_own(cx):
-    return r1_r5(cx) + r2(cx) + r3(cx) + r4(cx) + r6(cx) + r7(cx) + r8(cx) + r9(cx) + r10(cx)
+    return r1_r5(cx) + r2(cx) + r3(cx) + r4(cx) + r6(cx) + r7(cx) + r8(cx) + r9(cx) + r10(cx) + r11(cx)
 
 
 def r1_r5(cx):
@@ -468,6 +468,18 @@ def r10(cx):
         if n < 3:
             res.append(Finding(ID, 'R10', 'floor:' + adt, n >= 1, 'only %d of the 3 status queries are single expressions over the flag (the others are undecided)' % n))
     return res
+
+
+def r11(cx):
+    """`collect` yields all items: every item is added to the collection and the collection is emitted, then complete, on every
+    path of complete() — also for a source that emitted nothing (same rule as C03.S10 for CollectObserver)"""
+    if cx.control:
+        return []
+    from . import c03
+    out = [Finding(ID, 'R11', f.key, f.ok, f.msg, f.loc, f.witness) for f in c03.s10(cx) if 'collect::CollectObserver' in f.key]
+    if not out:
+        out.append(Finding(ID, 'R11', 'floor', False, 'CollectObserver not found'))
+    return out
 
 
 def r9(cx):
